@@ -574,8 +574,12 @@ class CHText:
 
     @classmethod
     def _merge_chunks(cls, chunks_list):
-        # merge Chunk objects having the same 'syntax'.
+        # merge Chunk objects having the same 'syntax', skip chunks with empty
+        # text (same as is done when chunks are appended one by one).
         # may return the argument if there are no chunks to merge.
+
+        if not all(c.text for c in chunks_list):
+            chunks_list = [c for c in chunks_list if c.text]
 
         need_merge = any(
             c.has_same_type(next_c)
